@@ -71,6 +71,17 @@ Proof.
   unfold effective_allow. rewrite orb_true_iff, negb_true_iff. tauto.
 Qed.
 
+Lemma keys_hashes_of_aux outs m :
+  forall p, In p (keys (fold_left (fun m o => upd m (o_path o) (o_hash o)) outs m)) <->
+            In p (map o_path outs) \/ In p (keys m).
+Proof.
+  revert m. induction outs as [|o outs IH]; intros m p; simpl.
+  - tauto.
+  - rewrite IH. unfold upd, keys. simpl. tauto.
+Qed.
+Lemma keys_hashes_of outs p : In p (keys (hashes_of outs)) <-> In p (map o_path outs).
+Proof. unfold hashes_of. rewrite keys_hashes_of_aux. simpl. tauto. Qed.
+
 (* ---------- effects of one step ---------- *)
 Section WithFS.
 Variable phys : path -> path.
@@ -156,17 +167,6 @@ Proof.
   destruct (writes_are_reported_all _ _ _ _ _ _ _ _ E He) as [A [B [C _]]].
   destruct H as [H|[H|H]]; congruence.
 Qed.
-
-Lemma keys_hashes_of_aux outs m :
-  forall p, In p (keys (fold_left (fun m o => upd m (o_path o) (o_hash o)) outs m)) <->
-            In p (map o_path outs) \/ In p (keys m).
-Proof.
-  revert m. induction outs as [|o outs IH]; intros m p; simpl.
-  - tauto.
-  - rewrite IH. unfold upd, keys. simpl. tauto.
-Qed.
-Lemma keys_hashes_of outs p : In p (keys (hashes_of outs)) <-> In p (map o_path outs).
-Proof. unfold hashes_of. rewrite keys_hashes_of_aux. simpl. tauto. Qed.
 
 Lemma deletes_in_table fixed opt st oc st' r p :
   step_gen phys fixed opt st oc = (st', r) ->
